@@ -3,6 +3,7 @@
 package c04
 
 import (
+	"errors"
 	"sync"
 	"github.com/ucan-wg/go-ucan/token/delegation"
 	"github.com/ucan-wg/go-ucan/pkg/command"
@@ -31,6 +32,10 @@ func TestReplay(t *testing.T) { P.Replay(t) }
 func runChain(c *h.Ctx, cs chain.Case) {
 	b, err := chain.Build(cs)
 	if err != nil {
+		if errors.Is(err, chain.ErrUndecodable) {
+			c.P.Class("raw-bound-refused-by-decoder")
+			return
+		}
 		c.P.Class("build-error")
 		return
 	}
@@ -91,6 +96,22 @@ func drawChain(t *rapid.T) chain.Case {
 			continue
 		}
 		l := &cs.Links[pos-1]
+		if rapid.IntRange(0, 3).Draw(t, "rawbound") == 2 {
+			// a delegation hand-signed with a bound the constructors cannot produce: the Unix epoch, year 1 (the zero
+			// value of Go's time.Time, to the second), negative seconds, the 32-bit limits, one second either side
+			past := []int64{0, 1, -1, -62135596800, -62135596801, -62135596799, -62167219200, -(1 << 31), (1 << 31) - 1, 1 << 31, 1 << 32, 946684800, -((1 << 53) - 1), 1700000000}
+			future := []int64{4102444800, 253402300799, 253402300800, (1 << 53) - 1, 1 << 40, 32503680000}
+			if rapid.Bool().Draw(t, "rawkind") {
+				v := rapid.SampledFrom(past).Draw(t, "rawexp")
+				l.RawExp = &v
+				cs.Dev = append(cs.Dev, fmt.Sprintf("raw-exp(%d)@%s", v, where))
+			} else {
+				v := rapid.SampledFrom(future).Draw(t, "rawnbf")
+				l.RawNbf = &v
+				cs.Dev = append(cs.Dev, fmt.Sprintf("raw-nbf(%d)@%s", v, where))
+			}
+			continue
+		}
 		if rapid.IntRange(0, 4).Draw(t, "farnbf") == 0 {
 			v := rapid.SampledFrom(farFuture).Draw(t, "farv")
 			l.NbfAbs, l.Nbf = &v, nil
